@@ -2060,6 +2060,20 @@ func onlyLogged(mi *ssa.MakeInterface) bool {
 // isOwnTableLookup: rec is the record found by looking `name` up in recv.programTree.ChildOptions, directly or
 // through a same-module helper that does exactly that with its own receiver and name parameter.
 func isOwnTableLookup(rec, recv, name ssa.Value, depth int) bool {
+	// the cases meet in a phi: nil where nothing was looked up (that edge is never dereferenced: C19), the lookup elsewhere
+	if phi, isPhi := rec.(*ssa.Phi); isPhi && depth <= 1 {
+		n := 0
+		for _, l := range phiLeaves(phi, map[ssa.Value]bool{}) {
+			if isNilConst(l) {
+				continue
+			}
+			if !isOwnTableLookup(l, recv, name, depth+1) {
+				return false
+			}
+			n++
+		}
+		return n > 0
+	}
 	ex, ok := rec.(*ssa.Extract)
 	if !ok || ex.Index != 0 {
 		return false
